@@ -60,9 +60,9 @@ theorem wsum_perm {a b : List (Centroid Rat)} (h : a.Perm b) : wsum a = wsum b :
   | trans _ _ ih1 ih2 => exact ih1.trans ih2
 
 /-- a centroid is fine w.r.t. the observed range -/
-def COk (mn mx : Rat) (c : Centroid Rat) : Prop := 1 ≤ c.weight ∧ mn ≤ c.mean ∧ c.mean ≤ mx
+def COk (mn mx : Rat) (c : Centroid Rat) : Prop := 0 < c.weight ∧ mn ≤ c.mean ∧ c.mean ≤ mx
 
-theorem wsum_pos_of_ok {mn mx : Rat} : ∀ {cs : List (Centroid Rat)}, cs ≠ [] → (∀ c ∈ cs, COk mn mx c) → 1 ≤ wsum cs
+theorem wsum_pos_of_ok {mn mx : Rat} : ∀ {cs : List (Centroid Rat)}, cs ≠ [] → (∀ c ∈ cs, COk mn mx c) → 0 < wsum cs
   | [], h, _ => absurd rfl h
   | [c], _, hc => by have := (hc c (by simp)).1; simp; grind
   | c :: c2 :: cs, _, hc => by
@@ -147,12 +147,13 @@ theorem insertByMean_perm (c : Centroid Rat) (l : List (Centroid Rat)) : (insert
 
 /-! ## the invariant -/
 
-/-- what every reachable digest satisfies (exact arithmetic) -/
+/-- what every reachable digest satisfies (exact arithmetic): the total is the sum of the centroid weights, every
+    weight is positive (`add_weighted` admits nothing else), every mean lies in `[min, max]` -/
 structure TDInv (d : TDigest Rat) : Prop where
   total_eq : d.total = wsum d.centroids
   empty : d.centroids = [] → d.min = none ∧ d.max = none
   range : d.centroids ≠ [] → ∃ mn mx, d.min = some mn ∧ d.max = some mx ∧ mn ≤ mx ∧
-      (∀ c ∈ d.centroids, COk mn mx c) ∧ (d.centroids.length = 1 → mn = mx)
+      (∀ c ∈ d.centroids, COk mn mx c)
 
 theorem COk.mono {mn mx mn' mx' : Rat} {c : Centroid Rat} (h : COk mn mx c) (h1 : mn' ≤ mn) (h2 : mx ≤ mx') :
     COk mn' mx' c := by
@@ -172,77 +173,92 @@ theorem compress_inv {d : TDigest Rat} (h : TDInv d) : TDInv d.compress := by
   · rename_i c rest hs
     have hne : d.centroids ≠ [] := by
       intro h0; rw [h0] at hs; simp at hs
-    obtain ⟨mn, mx, hmn, hmx, hle, hall, hone⟩ := h.range hne
+    obtain ⟨mn, mx, hmn, hmx, hle, hall⟩ := h.range hne
     have hall' : ∀ x ∈ c :: rest, COk mn mx x := fun x hx => hall x (by rw [← hs] at hx; exact mergeSort_mem.mp hx)
     refine ⟨?_, ?_, ?_⟩
     · simp only
       rw [compressLoop_wsum, h.total_eq, ← wsum_perm hp, hs]; rfl
     · intro h0; exact absurd h0 (compressLoop_ne_nil _ _ _ _ _ _)
     · intro _
-      refine ⟨mn, mx, hmn, hmx, hle, ?_, ?_⟩
-      · apply compressLoop_all (P := COk mn mx)
-        · intro cur x hcur hx
-          have hb := boundBetween_mem (cur := cur) (c := x) (m := (mergeCentroid cur x).mean) hcur.2.1 hx.2.1 hx.2.2
-          refine ⟨?_, hb.1, hb.2⟩
-          show 1 ≤ cur.weight + x.weight
-          have := hcur.1; have := hx.1; grind
-        · exact hall' c (by simp)
-        · exact fun x hx => hall' x (by simp [hx])
-      · intro hlen
-        cases rest with
-        | nil =>
-          apply hone
-          have := hp.length_eq; rw [hs] at this; simpa using this.symm
-        | cons c2 r =>
-          have := compressLoop_length_two boundBetween d.compression d.total c c2 r
-            (hall' c (by simp)).1 (hall' c2 (by simp)).1
-          simp only at hlen
-          rw [rat_zero] at hlen
-          omega
+      refine ⟨mn, mx, hmn, hmx, hle, ?_⟩
+      apply compressLoop_all (P := COk mn mx)
+      · intro cur x hcur hx
+        have hb := boundBetween_mem (cur := cur) (c := x) (m := (mergeCentroid cur x).mean) hcur.2.1 hx.2.1 hx.2.2
+        refine ⟨?_, hb.1, hb.2⟩
+        show 0 < cur.weight + x.weight
+        have := hcur.1; have := hx.1; grind
+      · exact hall' c (by simp)
+      · exact fun x hx => hall' x (by simp [hx])
+
+/-! ## `add_weighted` / `add` -/
+
+theorem rat_weightOk_pos {w : Rat} (h : 0 < w) : weightOk w = true := by
+  have : ¬ w ≤ 0 := by grind
+  simp [weightOk, this]
+
+theorem rat_weightOk_nonpos {w : Rat} (h : w ≤ 0) : weightOk w = false := by
+  simp [weightOk, h]
+
+/-- `add_weighted` before its optional `compress` -/
+def addPreW (d : TDigest Rat) (x w : Rat) : TDigest Rat :=
+  { d with min := ominV d.min x, max := omaxV d.max x,
+           centroids := insertByMean ⟨x, w⟩ d.centroids, total := d.total + w }
 
 /-- `add` before its optional `compress` -/
-def addPre (d : TDigest Rat) (x : Rat) : TDigest Rat :=
-  { d with min := ominV d.min x, max := omaxV d.max x,
-           centroids := insertByMean ⟨x, 1⟩ d.centroids, total := d.total + 1 }
+def addPre (d : TDigest Rat) (x : Rat) : TDigest Rat := addPreW d x 1
+
+theorem addWeighted_eq (d : TDigest Rat) (x w : Rat) (hw : 0 < w) :
+    d.addWeighted x w =
+      if ((addPreW d x w).centroids.length : Rat) > d.compression * 2 then (addPreW d x w).compress else addPreW d x w := by
+  unfold TDigest.addWeighted addPreW
+  simp only [rat_isFinite, rat_weightOk_pos hw, Bool.not_true, Bool.or_self, Bool.false_eq_true, ↓reduceIte, rat_ofNat,
+    rat_two]
+
+/-- a weight that is not positive is not an input: the call changes nothing -/
+theorem addWeighted_ignored (d : TDigest Rat) (x w : Rat) (hw : w ≤ 0) : d.addWeighted x w = d := by
+  simp [TDigest.addWeighted, rat_weightOk_nonpos hw]
+
+theorem add_eq_addWeighted (d : TDigest Rat) (x : Rat) : d.add x = d.addWeighted x 1 := rfl
 
 theorem add_eq (d : TDigest Rat) (x : Rat) :
-    d.add x = if ((addPre d x).centroids.length : Rat) > d.compression * 2 then (addPre d x).compress else addPre d x := by
-  unfold TDigest.add addPre
-  simp only [rat_isFinite, Bool.not_true, Bool.false_eq_true, ↓reduceIte, rat_one, rat_ofNat, rat_two]
+    d.add x = if ((addPre d x).centroids.length : Rat) > d.compression * 2 then (addPre d x).compress else addPre d x :=
+  addWeighted_eq d x 1 (by grind)
 
-theorem addPre_inv {d : TDigest Rat} (h : TDInv d) (x : Rat) : TDInv (addPre d x) := by
-  unfold addPre
-  have hperm := insertByMean_perm (⟨x, 1⟩ : Centroid Rat) d.centroids
+theorem addPreW_inv {d : TDigest Rat} (h : TDInv d) (x w : Rat) (hw : 0 < w) : TDInv (addPreW d x w) := by
+  unfold addPreW
+  have hperm := insertByMean_perm (⟨x, w⟩ : Centroid Rat) d.centroids
   refine ⟨?_, ?_, ?_⟩
   · simp only [wsum_perm hperm, h.total_eq, wsum_cons]; grind
   · intro h0; have := hperm.length_eq; simp only at h0; rw [h0] at this; simp at this
   · intro _
     by_cases hc : d.centroids = []
     · obtain ⟨hmn, hmx⟩ := h.empty hc
-      refine ⟨x, x, by simp [hmn, ominV], by simp [hmx, omaxV], Rat.le_refl, ?_, fun _ => rfl⟩
+      refine ⟨x, x, by simp [hmn, ominV], by simp [hmx, omaxV], Rat.le_refl, ?_⟩
       intro c hcm
       simp only at hcm
       rw [hperm.mem_iff] at hcm
       simp only [hc, List.mem_singleton] at hcm
       subst hcm; simp only [COk]; grind
-    · obtain ⟨mn, mx, hmn, hmx, hle, hall, _⟩ := h.range hc
+    · obtain ⟨mn, mx, hmn, hmx, hle, hall⟩ := h.range hc
       refine ⟨if mn ≤ x then mn else x, if mx ≤ x then x else mx, by simp [hmn, ominV], by simp [hmx, omaxV],
-        by grind, ?_, ?_⟩
-      · intro c hcm
-        simp only [hperm.mem_iff, List.mem_cons] at hcm
-        rcases hcm with rfl | hcm
-        · simp only [COk]; grind
-        · exact (hall c hcm).mono (by grind) (by grind)
-      · intro hlen
-        simp only [hperm.length_eq, List.length_cons] at hlen
-        have : d.centroids.length ≠ 0 := fun h0 => hc (List.length_eq_zero_iff.mp h0)
-        omega
+        by grind, ?_⟩
+      intro c hcm
+      simp only [hperm.mem_iff, List.mem_cons] at hcm
+      rcases hcm with rfl | hcm
+      · simp only [COk]; grind
+      · exact (hall c hcm).mono (by grind) (by grind)
 
-theorem add_inv {d : TDigest Rat} (h : TDInv d) (x : Rat) : TDInv (d.add x) := by
-  rw [add_eq]
-  split
-  · exact compress_inv (addPre_inv h x)
-  · exact addPre_inv h x
+theorem addPre_inv {d : TDigest Rat} (h : TDInv d) (x : Rat) : TDInv (addPre d x) := addPreW_inv h x 1 (by grind)
+
+theorem addWeighted_inv {d : TDigest Rat} (h : TDInv d) (x w : Rat) : TDInv (d.addWeighted x w) := by
+  by_cases hw : 0 < w
+  · rw [addWeighted_eq d x w hw]
+    split
+    · exact compress_inv (addPreW_inv h x w hw)
+    · exact addPreW_inv h x w hw
+  · rw [addWeighted_ignored d x w (by grind)]; exact h
+
+theorem add_inv {d : TDigest Rat} (h : TDInv d) (x : Rat) : TDInv (d.add x) := addWeighted_inv h x 1
 
 theorem centroids_ne_nil_of_total {d : TDigest Rat} (h : TDInv d) (ht : d.total ≠ 0) : d.centroids ≠ [] := by
   intro h0; apply ht; rw [h.total_eq, h0]; rfl
@@ -258,29 +274,23 @@ theorem merge_eq (d o : TDigest Rat) : d.merge o = if o.total == 0 then d else (
 theorem mergePre_inv {d o : TDigest Rat} (h : TDInv d) (ho : TDInv o) (hz' : o.total ≠ 0) : TDInv (mergePre d o) := by
   unfold mergePre
   have hone := centroids_ne_nil_of_total ho hz'
-  obtain ⟨omn, omx, homn, homx, hole, hoall, hoone⟩ := ho.range hone
+  obtain ⟨omn, omx, homn, homx, hole, hoall⟩ := ho.range hone
   refine ⟨?_, ?_, ?_⟩
   · simp only [wsum_append, h.total_eq, ho.total_eq]
   · intro h0; simp only [List.append_eq_nil_iff] at h0; exact absurd h0.2 hone
   · intro _
     by_cases hc : d.centroids = []
     · obtain ⟨hmn, hmx⟩ := h.empty hc
-      refine ⟨omn, omx, by simp [hmn, homn, ominO], by simp [hmx, homx, omaxO], hole, ?_, ?_⟩
-      · intro c hcm; simp only [hc, List.nil_append] at hcm; exact hoall c hcm
-      · intro hlen; simp only [hc, List.nil_append] at hlen; exact hoone hlen
-    · obtain ⟨mn, mx, hmn, hmx, hle, hall, _⟩ := h.range hc
+      refine ⟨omn, omx, by simp [hmn, homn, ominO], by simp [hmx, homx, omaxO], hole, ?_⟩
+      intro c hcm; simp only [hc, List.nil_append] at hcm; exact hoall c hcm
+    · obtain ⟨mn, mx, hmn, hmx, hle, hall⟩ := h.range hc
       refine ⟨if mn ≤ omn then mn else omn, if mx ≤ omx then omx else mx,
-        by simp [hmn, homn, ominO], by simp [hmx, homx, omaxO], by grind, ?_, ?_⟩
-      · intro c hcm
-        simp only [List.mem_append] at hcm
-        rcases hcm with hcm | hcm
-        · exact (hall c hcm).mono (by grind) (by grind)
-        · exact (hoall c hcm).mono (by grind) (by grind)
-      · intro hlen
-        simp only [List.length_append] at hlen
-        have : d.centroids.length ≠ 0 := fun h0 => hc (List.length_eq_zero_iff.mp h0)
-        have : o.centroids.length ≠ 0 := fun h0 => hone (List.length_eq_zero_iff.mp h0)
-        omega
+        by simp [hmn, homn, ominO], by simp [hmx, homx, omaxO], by grind, ?_⟩
+      intro c hcm
+      simp only [List.mem_append] at hcm
+      rcases hcm with hcm | hcm
+      · exact (hall c hcm).mono (by grind) (by grind)
+      · exact (hoall c hcm).mono (by grind) (by grind)
 
 theorem merge_inv {d o : TDigest Rat} (h : TDInv d) (ho : TDInv o) : TDInv (d.merge o) := by
   rw [merge_eq]
@@ -385,7 +395,9 @@ theorem quantileCore_mem (post : Rat → Rat) (total mn mx q : Rat) (cs : List (
   · exact ⟨Rat.le_refl, hle⟩
   · split
     · exact ⟨hle, Rat.le_refl⟩
-    · exact quantileLoop_mem post mn mx _ hle hpost cs _ _ hall
+    · split
+      · exact ⟨Rat.le_refl, hle⟩
+      · exact quantileLoop_mem post mn mx _ hle hpost cs _ _ hall
 
 theorem quantileCore_zero (post : Rat → Rat) (total mn mx q : Rat) (cs : List (Centroid Rat)) (hq : q ≤ 0) :
     quantileCoreWith post total cs mn mx q = mn := by
@@ -394,27 +406,33 @@ theorem quantileCore_zero (post : Rat → Rat) (total mn mx q : Rat) (cs : List 
   have : ((if (0:Rat) ≤ 0 - 0 then (0:Rat) - 0 else -(0 - 0)) ≤ 1 / 4503599627370496) := by grind
   simp [this]
 
-theorem quantileCore_one (post : Rat → Rat) (total mn mx q : Rat) (cs : List (Centroid Rat)) (hq : 1 ≤ q)
-    (hone : cs.length = 1 → mn = mx) :
+/-- `q ≥ 1` answers `max` — whatever the number of centroids (the end-point tests precede the single-centroid
+    short cut) -/
+theorem quantileCore_one (post : Rat → Rat) (total mn mx q : Rat) (cs : List (Centroid Rat)) (hq : 1 ≤ q) :
     quantileCoreWith post total cs mn mx q = mx := by
   unfold quantileCoreWith
   simp only [rat_zero, rat_one, clamp01_of_one_le hq, rat_abs, rat_eps]
   have h0 : ¬ ((if (0:Rat) ≤ 1 - 0 then (1:Rat) - 0 else -(1 - 0)) ≤ 1 / 4503599627370496) := by grind
   have h1 : ((if (0:Rat) ≤ 1 - 1 then (1:Rat) - 1 else -(1 - 1)) ≤ 1 / 4503599627370496) := by grind
-  by_cases hl : cs.length = 1
-  · simp [hl, hone hl]
-  · simp [hl, h0, h1]
+  simp [h0, h1]
 
 /-! ## digests built from inputs: `total`, `min`, `max` are those of the inputs -/
 
 def IsMin (m : Rat) (xs : List Rat) : Prop := m ∈ xs ∧ ∀ x ∈ xs, m ≤ x
 def IsMax (m : Rat) (xs : List Rat) : Prop := m ∈ xs ∧ ∀ x ∈ xs, x ≤ m
 
-/-- `d` summarises exactly the inputs `xs` -/
+/-- `d` summarises exactly the inputs `xs` (the values that were offered with a positive weight): its range is
+    theirs, and its total weight is positive iff there is one (the exact total: `eval_total`) -/
 structure Summary (d : TDigest Rat) (xs : List Rat) : Prop where
-  total_eq : d.total = (xs.length : Rat)
+  total_zero : xs = [] → d.total = 0
+  total_pos : xs ≠ [] → 0 < d.total
   empty : xs = [] → d.min = none ∧ d.max = none
   range : xs ≠ [] → ∃ mn mx, d.min = some mn ∧ d.max = some mx ∧ IsMin mn xs ∧ IsMax mx xs
+
+theorem Summary.total_nonneg {d : TDigest Rat} {xs : List Rat} (h : Summary d xs) : 0 ≤ d.total := by
+  by_cases hx : xs = []
+  · rw [h.total_zero hx]; exact Rat.le_refl
+  · have := h.total_pos hx; grind
 
 theorem compress_total (d : TDigest Rat) : d.compress.total = d.total := by
   unfold TDigest.compress; split <;> rfl
@@ -426,23 +444,25 @@ theorem compress_compression (d : TDigest Rat) : d.compress.compression = d.comp
   unfold TDigest.compress; split <;> rfl
 
 theorem compress_summary {d : TDigest Rat} {xs : List Rat} (h : Summary d xs) : Summary d.compress xs := by
-  refine ⟨?_, ?_, ?_⟩
-  · rw [compress_total]; exact h.total_eq
+  refine ⟨?_, ?_, ?_, ?_⟩
+  · rw [compress_total]; exact h.total_zero
+  · rw [compress_total]; exact h.total_pos
   · rw [compress_min, compress_max]; exact h.empty
   · rw [compress_min, compress_max]; exact h.range
 
 theorem new_summary (δ : Rat) : Summary (TDigest.new δ) [] := by
-  refine ⟨?_, ?_, ?_⟩ <;> simp [TDigest.new]
+  refine ⟨?_, ?_, ?_, ?_⟩ <;> simp [TDigest.new]
 
 theorem natCast_succ (n : Nat) : ((n + 1 : Nat) : Rat) = (n : Rat) + 1 := by grind
 
-theorem add_summary {d : TDigest Rat} {xs : List Rat} (h : Summary d xs) (x : Rat) :
-    Summary (d.add x) (xs ++ [x]) := by
-  unfold TDigest.add
-  simp only [rat_isFinite, Bool.not_true, Bool.false_eq_true, ↓reduceIte, rat_one]
-  have h1 : Summary ({ d with min := ominV d.min x, max := omaxV d.max x, centroids := insertByMean ⟨x, 1⟩ d.centroids, total := d.total + 1 } : TDigest Rat) (xs ++ [x]) := by
-    refine ⟨?_, ?_, ?_⟩
-    · simp only [h.total_eq, List.length_append, List.length_cons, List.length_nil, Nat.zero_add, natCast_succ]
+theorem addWeighted_summary {d : TDigest Rat} {xs : List Rat} (h : Summary d xs) (x w : Rat) (hw : 0 < w) :
+    Summary (d.addWeighted x w) (xs ++ [x]) := by
+  rw [addWeighted_eq d x w hw]
+  have h1 : Summary (addPreW d x w) (xs ++ [x]) := by
+    unfold addPreW
+    refine ⟨?_, ?_, ?_, ?_⟩
+    · intro h0; simp at h0
+    · intro _; have := h.total_nonneg; simp only; grind
     · intro h0; simp at h0
     · intro _
       by_cases hx : xs = []
@@ -468,6 +488,9 @@ theorem add_summary {d : TDigest Rat} {xs : List Rat} (h : Summary d xs) (x : Ra
   · exact compress_summary h1
   · exact h1
 
+theorem add_summary {d : TDigest Rat} {xs : List Rat} (h : Summary d xs) (x : Rat) :
+    Summary (d.add x) (xs ++ [x]) := addWeighted_summary h x 1 (by grind)
+
 theorem merge_summary {d o : TDigest Rat} {xs ys : List Rat} (h : Summary d xs) (ho : Summary o ys) :
     Summary (d.merge o) (xs ++ ys) := by
   unfold TDigest.merge
@@ -475,17 +498,19 @@ theorem merge_summary {d o : TDigest Rat} {xs ys : List Rat} (h : Summary d xs) 
   · rename_i hz
     have hz' : o.total = 0 := by simpa using hz
     have : ys = [] := by
-      have h0 : (ys.length : Rat) = ((0 : Nat) : Rat) := by rw [← ho.total_eq, hz']; rfl
-      exact List.length_eq_zero_iff.mp (Rat.natCast_inj.mp h0)
+      false_or_by_contra
+      rename_i hne
+      have := ho.total_pos hne
+      grind
     simpa [this] using h
   · rename_i hz
     have hz' : o.total ≠ 0 := by simpa using hz
-    have hys : ys ≠ [] := by
-      intro h0; apply hz'; rw [ho.total_eq, h0]; rfl
+    have hys : ys ≠ [] := fun h0 => hz' (ho.total_zero h0)
     obtain ⟨omn, omx, homn, homx, homin, homax⟩ := ho.range hys
     apply compress_summary
-    refine ⟨?_, ?_, ?_⟩
-    · simp only [h.total_eq, ho.total_eq, List.length_append]; grind
+    refine ⟨?_, ?_, ?_, ?_⟩
+    · intro h0; simp only [List.append_eq_nil_iff] at h0; exact absurd h0.2 hys
+    · intro _; have := h.total_nonneg; have := ho.total_pos hys; simp only; grind
     · intro h0; simp only [List.append_eq_nil_iff] at h0; exact absurd h0.2 hys
     · intro _
       by_cases hx : xs = []
@@ -522,9 +547,30 @@ theorem foldAdd_sound (δ : Rat) (xs : List Rat) : TDInv (foldAdd δ xs) ∧ Sum
   have := foldl_add_sound xs (TDigest.new δ) [] (new_inv δ) (new_summary δ)
   simpa [foldAdd] using this
 
+/-- `add_weighted` over a list of (value, weight) pairs: the pairs with a non-positive weight are no inputs -/
+theorem foldlW_sound (ps : List (Rat × Rat)) : ∀ (d : TDigest Rat) (ys : List Rat), TDInv d → Summary d ys →
+    TDInv (ps.foldl (fun d p => d.addWeighted p.1 p.2) d) ∧
+      Summary (ps.foldl (fun d p => d.addWeighted p.1 p.2) d) (ys ++ (ps.filter (fun p => weightOk p.2)).map Prod.fst) := by
+  induction ps with
+  | nil => intro d ys h1 h2; simpa using ⟨h1, h2⟩
+  | cons p ps ih =>
+    intro d ys h1 h2
+    by_cases hw : 0 < p.2
+    · have := ih (d.addWeighted p.1 p.2) (ys ++ [p.1]) (addWeighted_inv h1 _ _) (addWeighted_summary h2 _ _ hw)
+      simpa [List.filter, rat_weightOk_pos hw] using this
+    · have hw' : p.2 ≤ 0 := by grind
+      have := ih d ys h1 h2
+      simpa [List.filter, rat_weightOk_nonpos hw', addWeighted_ignored d p.1 p.2 hw'] using this
+
+theorem foldAddW_sound (δ : Rat) (ps : List (Rat × Rat)) :
+    TDInv (foldAddW δ ps) ∧ Summary (foldAddW δ ps) ((ps.filter (fun p => weightOk p.2)).map Prod.fst) := by
+  have := foldlW_sound ps (TDigest.new δ) [] (new_inv δ) (new_summary δ)
+  simpa [foldAddW] using this
+
 theorem eval_sound (δ : Rat) : ∀ t : MTree Rat, TDInv (t.eval δ) ∧ Summary (t.eval δ) t.leaves
   | .leaf xs => foldAdd_sound δ xs
   | .built xs => ⟨compress_inv (foldAdd_sound δ xs).1, compress_summary (foldAdd_sound δ xs).2⟩
+  | .wleaf ps => foldAddW_sound δ ps
   | .node l r => ⟨merge_inv (eval_sound δ l).1 (eval_sound δ r).1, merge_summary (eval_sound δ l).2 (eval_sound δ r).2⟩
 
 /-- no centroid ⇔ no input -/
@@ -532,30 +578,93 @@ theorem centroids_nil_iff {d : TDigest Rat} {xs : List Rat} (h : TDInv d) (hs : 
     d.centroids = [] ↔ xs = [] := by
   constructor
   · intro h0
-    have : (xs.length : Rat) = ((0 : Nat) : Rat) := by rw [← hs.total_eq, h.total_eq, h0]; rfl
-    exact List.length_eq_zero_iff.mp (Rat.natCast_inj.mp this)
+    false_or_by_contra
+    rename_i hne
+    have h1 := hs.total_pos hne
+    rw [h.total_eq, h0] at h1
+    simp at h1
   · intro h0
     false_or_by_contra
     rename_i hne
-    obtain ⟨mn, mx, _, _, _, hall, _⟩ := h.range hne
+    obtain ⟨mn, mx, _, _, _, hall⟩ := h.range hne
     have h1 := wsum_pos_of_ok hne hall
-    have : d.total = 0 := by rw [hs.total_eq, h0]; rfl
+    have : d.total = 0 := hs.total_zero h0
     rw [h.total_eq] at this
     grind
+
+/-! ## the total weight is the sum of the admitted weights (one per element-wise input) -/
+
+/-- sum of the weights of a list of (value, weight) pairs -/
+def wsumP : List (Rat × Rat) → Rat
+  | [] => 0
+  | p :: ps => p.2 + wsumP ps
+
+/-- the weight a merge tree was fed with: 1 per element-wise input, the admitted weights of an `add_weighted` leaf -/
+def MTree.weight : MTree Rat → Rat
+  | .leaf xs => (xs.length : Rat)
+  | .built xs => (xs.length : Rat)
+  | .wleaf ps => wsumP (ps.filter (fun p => weightOk p.2))
+  | .node l r => l.weight + r.weight
+
+theorem addWeighted_total (d : TDigest Rat) (x w : Rat) (hw : 0 < w) : (d.addWeighted x w).total = d.total + w := by
+  rw [addWeighted_eq d x w hw]
+  split
+  · rw [compress_total]; rfl
+  · rfl
+
+theorem merge_total (d o : TDigest Rat) : (d.merge o).total = d.total + o.total := by
+  unfold TDigest.merge
+  split
+  · rename_i hz
+    have hz' : o.total = 0 := by simpa using hz
+    rw [hz']; grind
+  · rw [compress_total]
+
+theorem foldlW_total (ps : List (Rat × Rat)) : ∀ d : TDigest Rat,
+    (ps.foldl (fun d p => d.addWeighted p.1 p.2) d).total = d.total + wsumP (ps.filter (fun p => weightOk p.2)) := by
+  induction ps with
+  | nil => intro d; simp [wsumP]; grind
+  | cons p ps ih =>
+    intro d
+    by_cases hw : 0 < p.2
+    · simp only [List.foldl, List.filter, rat_weightOk_pos hw, wsumP]
+      rw [ih, addWeighted_total d p.1 p.2 hw]; grind
+    · have hw' : p.2 ≤ 0 := by grind
+      simp only [List.foldl, List.filter, rat_weightOk_nonpos hw', addWeighted_ignored d p.1 p.2 hw']
+      exact ih d
+
+theorem foldl_add_total (xs : List Rat) : ∀ d : TDigest Rat,
+    (xs.foldl TDigest.add d).total = d.total + (xs.length : Rat) := by
+  induction xs with
+  | nil => intro d; simp; grind
+  | cons x xs ih =>
+    intro d
+    simp only [List.foldl, List.length_cons, natCast_succ]
+    rw [ih, add_eq_addWeighted, addWeighted_total d x 1 (by grind)]; grind
+
+theorem eval_total (δ : Rat) : ∀ t : MTree Rat, (t.eval δ).total = t.weight
+  | .leaf xs => by
+    simp only [MTree.eval, foldAdd, MTree.weight, foldl_add_total, TDigest.new, rat_zero]; grind
+  | .built xs => by
+    simp only [MTree.eval, buildFromGroup, compress_total, foldAdd, MTree.weight, foldl_add_total, TDigest.new, rat_zero]; grind
+  | .wleaf ps => by
+    simp only [MTree.eval, foldAddW, MTree.weight, foldlW_total, TDigest.new, rat_zero]; grind
+  | .node l r => by
+    simp only [MTree.eval, MTree.weight, merge_total, eval_total δ l, eval_total δ r]
 
 /-- everything `quantile` needs to know about a digest that summarises the non-empty input `xs` -/
 theorem digest_facts {d : TDigest Rat} {xs : List Rat} (h : TDInv d) (hs : Summary d xs) (hne : xs ≠ []) :
     ∃ mn mx c cs, d.min = some mn ∧ d.max = some mx ∧ d.centroids = c :: cs ∧ IsMin mn xs ∧ IsMax mx xs ∧ mn ≤ mx ∧
-      (∀ x ∈ c :: cs, COk mn mx x) ∧ ((c :: cs).length = 1 → mn = mx) := by
+      (∀ x ∈ c :: cs, COk mn mx x) := by
   have hcn : d.centroids ≠ [] := fun h0 => hne ((centroids_nil_iff h hs).mp h0)
-  obtain ⟨mn, mx, hmn, hmx, hle, hall, hone⟩ := h.range hcn
+  obtain ⟨mn, mx, hmn, hmx, hle, hall⟩ := h.range hcn
   obtain ⟨mn', mx', hmn', hmx', hmin, hmax⟩ := hs.range hne
   have e1 : mn' = mn := by rw [hmn] at hmn'; exact (Option.some.inj hmn').symm
   have e2 : mx' = mx := by rw [hmx] at hmx'; exact (Option.some.inj hmx').symm
   subst e1 e2
   cases hc : d.centroids with
   | nil => exact absurd hc hcn
-  | cons c cs => exact ⟨mn', mx', c, cs, hmn, hmx, rfl, hmin, hmax, hle, by rw [← hc]; exact hall, by rw [← hc]; exact hone⟩
+  | cons c cs => exact ⟨mn', mx', c, cs, hmn, hmx, rfl, hmin, hmax, hle, by rw [← hc]; exact hall⟩
 
 theorem quantile_eq {d : TDigest Rat} {c : Centroid Rat} {cs : List (Centroid Rat)} {mn mx : Rat}
     (hc : d.centroids = c :: cs) (hmn : d.min = some mn) (hmx : d.max = some mx) (q : Rat) :
@@ -564,8 +673,18 @@ theorem quantile_eq {d : TDigest Rat} {c : Centroid Rat} {cs : List (Centroid Ra
 
 theorem legacy_quantile_eq {d : TDigest Rat} {c : Centroid Rat} {cs : List (Centroid Rat)} {mn mx : Rat}
     (hc : d.centroids = c :: cs) (hmn : d.min = some mn) (hmx : d.max = some mx) (q : Rat) :
-    Legacy.quantile d q = some (quantileCoreWith id d.total (c :: cs) mn mx q) := by
+    Legacy.quantile d q = some (Legacy.quantileCoreWith id d.total (c :: cs) mn mx q) := by
   unfold Legacy.quantile; simp only [hc, hmn, hmx]
+
+theorem legacy_quantileShortcutFirst_eq {d : TDigest Rat} {c : Centroid Rat} {cs : List (Centroid Rat)} {mn mx : Rat}
+    (hc : d.centroids = c :: cs) (hmn : d.min = some mn) (hmx : d.max = some mx) (q : Rat) :
+    Legacy.quantileShortcutFirst d q = some (Legacy.quantileCoreWith (fun x => clamp x mn mx) d.total (c :: cs) mn mx q) := by
+  unfold Legacy.quantileShortcutFirst; simp only [hc, hmn, hmx]
+
+theorem quantileNoClamp_eq {d : TDigest Rat} {c : Centroid Rat} {cs : List (Centroid Rat)} {mn mx : Rat}
+    (hc : d.centroids = c :: cs) (hmn : d.min = some mn) (hmx : d.max = some mx) (q : Rat) :
+    d.quantileNoClamp q = some (quantileCoreWith id d.total (c :: cs) mn mx q) := by
+  unfold TDigest.quantileNoClamp; simp only [hc, hmn, hmx]
 
 theorem quantile_nil {d : TDigest Rat} (hc : d.centroids = []) (q : Rat) : d.quantile q = none := by
   unfold TDigest.quantile; simp only [hc]
@@ -655,7 +774,7 @@ theorem compress_sorted {d : TDigest Rat} (h : TDInv d) : SortedC d.compress.cen
   · rename_i c rest hs
     have hne : d.centroids ≠ [] := by
       intro h0; rw [h0] at hs; simp at hs
-    obtain ⟨mn, mx, hmn, hmx, hle, hall, _⟩ := h.range hne
+    obtain ⟨mn, mx, hmn, hmx, hle, hall⟩ := h.range hne
     have hall' : ∀ x ∈ c :: rest, COk mn mx x := fun x hx => hall x (by rw [← hs] at hx; exact mergeSort_mem.mp hx)
     rw [hs] at hsorted
     have hs2 : SortedC (c :: rest) := by
@@ -684,23 +803,41 @@ theorem quantileCore_mid (post : Rat → Rat) (total mn mx q : Rat) (cs : List (
   unfold quantileCoreWith
   have : clamp q 0 1 = q := clamp_id (by grind) (by grind)
   simp only [rat_zero, rat_one, this, rat_abs, rat_eps]
-  rw [if_neg, if_neg]
-  · grind
-  · simp only [Bool.or_eq_true, decide_eq_true_eq, beq_iff_eq]; grind
+  have a1 : ¬ ((if (0:Rat) ≤ q - 0 then q - 0 else -(q - 0)) ≤ 1 / 4503599627370496) := by grind
+  have a2 : ¬ ((if (0:Rat) ≤ q - 1 then q - 1 else -(q - 1)) ≤ 1 / 4503599627370496) := by grind
+  have a3 : ¬ ((cs.length == 1) = true) := by simpa using hl
+  rw [if_neg a1, if_neg a2, if_neg a3]
+
+/-- the same for the order of the tests before the fix (short cut first) -/
+theorem legacy_quantileCore_mid (post : Rat → Rat) (total mn mx q : Rat) (cs : List (Centroid Rat))
+    (h0 : (1:Rat) / 4503599627370496 < q) (h1 : q < 1 - 1 / 4503599627370496) (hl : cs.length ≠ 1) :
+    Legacy.quantileCoreWith post total cs mn mx q = quantileLoopWith post mx (q * total) mn 0 cs := by
+  unfold Legacy.quantileCoreWith
+  have : clamp q 0 1 = q := clamp_id (by grind) (by grind)
+  simp only [rat_zero, rat_one, this, rat_abs, rat_eps]
+  have a1 : ¬ ((decide ((if (0:Rat) ≤ q - 0 then q - 0 else -(q - 0)) ≤ 1 / 4503599627370496) || (cs.length == 1)) = true) := by
+    simp only [Bool.or_eq_true, decide_eq_true_eq, beq_iff_eq]; grind
+  have a2 : ¬ ((if (0:Rat) ≤ q - 1 then q - 1 else -(q - 1)) ≤ 1 / 4503599627370496) := by grind
+  rw [if_neg a1, if_neg a2]
 
 theorem insertByMean_length (c : Centroid Rat) (l : List (Centroid Rat)) : (insertByMean c l).length = l.length + 1 := by
   rw [(insertByMean_perm c l).length_eq]; rfl
 
-theorem add_explicit (δ tot x : Rat) (cs : List (Centroid Rat)) (mn mx : Option Rat)
+theorem addWeighted_explicit (δ tot x w : Rat) (cs : List (Centroid Rat)) (mn mx : Option Rat) (hw : 0 < w)
     (h : ¬ (((cs.length + 1 : Nat) : Rat) > δ * 2)) :
-    TDigest.add ⟨δ, cs, tot, mn, mx⟩ x = ⟨δ, insertByMean ⟨x, 1⟩ cs, tot + 1, ominV mn x, omaxV mx x⟩ := by
-  unfold TDigest.add
-  simp only [rat_isFinite, Bool.not_true, Bool.false_eq_true, ↓reduceIte, rat_ofNat, rat_two, rat_one,
-    insertByMean_length]
+    TDigest.addWeighted ⟨δ, cs, tot, mn, mx⟩ x w = ⟨δ, insertByMean ⟨x, w⟩ cs, tot + w, ominV mn x, omaxV mx x⟩ := by
+  unfold TDigest.addWeighted
+  simp only [rat_isFinite, rat_weightOk_pos hw, Bool.not_true, Bool.or_self, Bool.false_eq_true, ↓reduceIte, rat_ofNat,
+    rat_two, insertByMean_length]
   rw [if_neg h]
 
+theorem add_explicit (δ tot x : Rat) (cs : List (Centroid Rat)) (mn mx : Option Rat)
+    (h : ¬ (((cs.length + 1 : Nat) : Rat) > δ * 2)) :
+    TDigest.add ⟨δ, cs, tot, mn, mx⟩ x = ⟨δ, insertByMean ⟨x, 1⟩ cs, tot + 1, ominV mn x, omaxV mx x⟩ :=
+  addWeighted_explicit δ tot x 1 cs mn mx (by grind) h
+
 /-- in exact arithmetic the clamp of the current `quantile` never fires -/
-theorem quantileCore_eq_legacy (total mn mx q : Rat) (cs : List (Centroid Rat)) (hle : mn ≤ mx)
+theorem quantileCore_eq_noclamp (total mn mx q : Rat) (cs : List (Centroid Rat)) (hle : mn ≤ mx)
     (hall : ∀ c ∈ cs, COk mn mx c) (htot : 0 < total) :
     quantileCoreWith (fun x => clamp x mn mx) total cs mn mx q = quantileCoreWith id total cs mn mx q := by
   unfold quantileCoreWith
@@ -710,15 +847,17 @@ theorem quantileCore_eq_legacy (total mn mx q : Rat) (cs : List (Centroid Rat)) 
   · rename_i h0
     split
     · rfl
-    · apply quantileLoop_eq_legacy mn mx _ hle cs _ _ hall Rat.le_refl hle
-      have hq := clamp01_mem q
-      simp only [rat_zero, rat_one] at h0 hq ⊢
-      have : 0 < clamp q 0 1 := by
-        false_or_by_contra
-        apply h0
-        have : clamp q 0 1 = 0 := by grind
-        simp [this]; grind
-      exact Rat.mul_pos this htot
+    · split
+      · rfl
+      · apply quantileLoop_eq_legacy mn mx _ hle cs _ _ hall Rat.le_refl hle
+        have hq := clamp01_mem q
+        simp only [rat_zero, rat_one] at h0 hq ⊢
+        have : 0 < clamp q 0 1 := by
+          false_or_by_contra
+          apply h0
+          have : clamp q 0 1 = 0 := by grind
+          simp [this]; grind
+        exact Rat.mul_pos this htot
 
 /-! ## where monotonicity in `q` does hold: as long as the covering centroid does not change -/
 
@@ -792,8 +931,15 @@ section generic
 variable {α : Type} [Add α] [Sub α] [Mul α] [Div α] [LE α] [LT α] [DecidableLE α] [DecidableLT α]
   [BEq α] [NumOps α]
 
-theorem add_nonfinite (d : TDigest α) (x : α) (h : isFinite x = false) : d.add x = d := by
-  simp [TDigest.add, h]
+theorem addWeighted_nonfinite (d : TDigest α) (x w : α) (h : isFinite x = false) : d.addWeighted x w = d := by
+  simp [TDigest.addWeighted, h]
+
+/-- a weight that `add_weighted` does not admit (not finite, or `≤ 0`): the call changes nothing — on ANY carrier -/
+theorem addWeighted_badWeight (d : TDigest α) (x w : α) (h : weightOk w = false) : d.addWeighted x w = d := by
+  simp [TDigest.addWeighted, h]
+
+theorem add_nonfinite (d : TDigest α) (x : α) (h : isFinite x = false) : d.add x = d :=
+  addWeighted_nonfinite d x one h
 
 theorem foldl_add_filter (xs : List α) : ∀ d : TDigest α,
     xs.foldl TDigest.add d = (xs.filter isFinite).foldl TDigest.add d := by
@@ -805,20 +951,44 @@ theorem foldl_add_filter (xs : List α) : ∀ d : TDigest α,
     | true => simp [List.filter, h, ih]
     | false => simp [List.filter, h, add_nonfinite d x h, ih]
 
+theorem foldlW_filter (ps : List (α × α)) : ∀ d : TDigest α,
+    ps.foldl (fun d p => d.addWeighted p.1 p.2) d =
+      (ps.filter (fun p => isFinite p.1)).foldl (fun d p => d.addWeighted p.1 p.2) d := by
+  induction ps with
+  | nil => intro d; rfl
+  | cons p ps ih =>
+    intro d
+    cases h : isFinite p.1 with
+    | true => simp [List.filter, h, ih]
+    | false => simp [List.filter, h, addWeighted_nonfinite d p.1 p.2 h, ih]
+
 /-- drop the non-finite values of every leaf -/
 def MTree.finiteOnly : MTree α → MTree α
   | .leaf xs => .leaf (xs.filter isFinite)
   | .built xs => .built (xs.filter isFinite)
+  | .wleaf ps => .wleaf (ps.filter (fun p => isFinite p.1))
   | .node l r => .node l.finiteOnly r.finiteOnly
 
 theorem eval_finiteOnly (δ : α) : ∀ t : MTree α, t.finiteOnly.eval δ = t.eval δ
   | .leaf xs => by simp [MTree.finiteOnly, MTree.eval, foldAdd, ← foldl_add_filter]
   | .built xs => by simp [MTree.finiteOnly, MTree.eval, buildFromGroup, foldAdd, ← foldl_add_filter]
+  | .wleaf ps => by simp [MTree.finiteOnly, MTree.eval, foldAddW, ← foldlW_filter]
   | .node l r => by simp [MTree.finiteOnly, MTree.eval, eval_finiteOnly δ l, eval_finiteOnly δ r]
+
+theorem filter_comm_map_fst (ps : List (α × α)) :
+    ((ps.filter (fun p => isFinite p.1)).filter (fun p => weightOk p.2)).map Prod.fst =
+      ((ps.filter (fun p => weightOk p.2)).map Prod.fst).filter isFinite := by
+  induction ps with
+  | nil => rfl
+  | cons p ps ih =>
+    simp only [List.filter_cons]
+    cases h1 : isFinite p.1 <;> cases h2 : weightOk p.2 <;>
+      simp only [h1, h2, ↓reduceIte, Bool.false_eq_true, List.filter_cons, List.map_cons, ih]
 
 theorem leaves_finiteOnly : ∀ t : MTree α, t.finiteOnly.leaves = t.leaves.filter isFinite
   | .leaf xs => rfl
   | .built xs => rfl
+  | .wleaf ps => by simp only [MTree.finiteOnly, MTree.leaves]; exact filter_comm_map_fst ps
   | .node l r => by simp [MTree.finiteOnly, MTree.leaves, leaves_finiteOnly l, leaves_finiteOnly r]
 
 end generic
